@@ -123,6 +123,7 @@ def sweep_stream(seed, tier):
         note = "32 ranges of 2^20 consecutive bit patterns (around 0, 0.5, 2^23, the largest finite values, both signs, plus random ranges), natively in the release binary"
     st = Stream("float-scalar-law-sweep", "f32sweep", None, cases, note)
     st.per_shard = 1          # heavy cases: one per worker slot
+    st.timeout = 3600         # a range of 2^24 patterns takes seconds, but the machine may be loaded
     return [st]
 
 
